@@ -35,13 +35,13 @@ theorem global_plain (cfg : Cfg) (hv : cfg.via = .g) (name : Name) (s : St) (n :
     (loadS (n+7) cfg s name).1 = plainOutcome cfg name ∧
     (loadS (n+7) cfg s name).2.reads = s.reads ++ (idx cfg .g (keyOf name)).head?.toList ∧
     (idx cfg .g (keyOf name) = [] → (loadS (n+7) cfg s name).2 = s.put .g (keyOf name) none) := by
-  obtain ⟨mods, tree, via, gi⟩ := cfg
+  obtain ⟨mods, tree, via, gi, fl⟩ := cfg
   simp only at hv
   subst hv
   unfold loadS load
   simp only [loadEntry, fbLoadEntry, find_g, findTail, bind, pure, getSt, hsys, hget]
   unfold plainOutcome
-  cases hi : idx ⟨mods, tree, .g, gi⟩ .g (keyOf name) with
+  cases hi : idx ⟨mods, tree, .g, gi, fl⟩ .g (keyOf name) with
   | nil =>
     simp only [habs hi]
     simp [setEntry, hget]
